@@ -1,4 +1,5 @@
 import QuillModel.Exit.Model
+import QuillModel.Exit.Stop
 import QuillModel.Extracted.Exit
 import QuillModel.Drivers.Util
 /-!
@@ -48,6 +49,9 @@ structure Sim where
   classes : List String := []
   acts : List String := []
   unspecified : Bool := false
+  gate : String := ""             -- "w": the backend is held inside a write_log; "s": … and then inside the final flush of `_exit`
+  conc : Option CS := none        -- another thread is inside `Backend::stop()` / the `atexit` stop: state of `Exit.CS`
+  armed : Option Sig := none      -- `tsigx`: an extra thread raises this signal as soon as a stop has been requested
 
 def b01 (b : Bool) : String := if b then "1" else "0"
 
@@ -84,21 +88,77 @@ def Sim.signal (P : LParams) (s : Sim) (sg : Sig) (who : String) (logger reraise
     | .continues => { s3 with cont := s3.cont + 1 }
     | .hangs => { s3 with parked := true, parkSig := some sg, parkWho := who }
 
-def Sim.op (P : LParams) (logger reraise infoOn : Bool) (s : Sim) (op : String) : Sim :=
+/-- another thread has entered the stop sequence `seq` and is waiting in `join()` (or has returned, if the backend
+    thread could end); where the backend thread is depends on how the harness holds it: with the gate of `Gs`, or with
+    `wait_for_queues_to_empty_before_exit` off, it has taken its last look at the queues -/
+def Sim.enterStop (s : Sim) (seq : List SStep) (wait : Bool) : CS :=
+  let c0 : CS := { idSet := s.life.ctxTid != 0 }
+  let evs := List.replicate 6 Ev.stopper ++ (if s.gate == "s" || !wait then [Ev.bgLastCheck] else [])
+  c0.run seq wait evs
+
+/-- a handled signal on a frontend thread while the stop sequence is in state `c` (`Exit.signalDuringStop`) -/
+def Sim.signalInStop (s : Sim) (c : CS) (wait : Bool) (sg : Sig) (who : String) (infoOn : Bool) : Sim :=
+  if s.final.isSome || s.parked then s else
+  let r := signalDuringStopG Extracted.flushEndsWhenBackendGone wait infoOn true sg false c c
+  let acts := onSignal (c.ctx sg false)
+  let cls := if !c.idSet then "sig-inside-stop-id-cleared" else if c.serving then "sig-inside-stop-served" else "sig-inside-stop-after-last-look"
+  let s1 := { s with entries := s.entries + 1, classes := s.classes ++ [cls],
+                     acts := s.acts ++ ["+".intercalate (acts.map Action.name)],
+                     info := s.info + countItem r.1.written .notice, crit := s.crit + countItem r.1.written .critical }
+  let s2 := if acts.contains .setAlarm && s1.alarm.isNone then { s1 with alarm := some sg } else s1
+  match r.2 with
+  | .exit0 => { s2 with final := some "exit:0" }
+  | .diedBy k => { s2 with final := some ("sig:" ++ k.name) }
+  | .continues => { s2 with cont := s2.cont + 1 }
+  | .hangs => { s2 with parked := true, parkSig := some sg, parkWho := who }
+
+def Sim.op (P : LParams) (logger reraise infoOn : Bool) (s : Sim) (op : String) (wait : Bool := true) : Sim :=
   if s.final.isSome || s.parked then s else
   match op.splitOn ":" with
   | ["H"] => { s with life := s.life.step P .startSH, handlers := true }
   | ["S"] => { s with life := s.life.step P .start }
   | ["I"] => { s with handlers := true }
-  | ["X"] => { s with life := s.life.step P .stop, classes := s.classes ++ ["stop"] }
+  | ["Gw"] => { s with gate := "w" }
+  | ["Gs"] => { s with gate := "s" }
+  | ["tstop", _] =>
+    if s.life.running then { s with conc := some (s.enterStop Extracted.stopSeq wait), classes := s.classes ++ ["stop-in-another-thread"] } else s
+  | ["tsigx", _, nm] => { s with armed := Sig.ofName nm }
+  | ["X"] =>
+    match s.armed with
+    | some sg =>
+      if s.life.running then (s.signalInStop (s.enterStop Extracted.stopSeq wait) wait sg "extra" infoOn) else s
+    | none => { s with life := s.life.step P .stop, classes := s.classes ++ ["stop"] }
   | ["Q"] => { s with qs := s.qs ++ [b01 s.life.running ++ "/" ++ b01 (s.life.workerTid != 0) ++ "/" ++ b01 (s.life.ctxTid != 0)] }
   | ["M"] => { s with ms := s.ms ++ [b01 (s.life.running && s.life.ctxTid != 0) ++ "/1"] }
-  | ["ret"] => { s with life := s.life.step P .exit, final := some "exit:0", classes := s.classes ++ ["return"] }
-  | ["exit"] => { s with life := s.life.step P .exit, final := some "exit:0", classes := s.classes ++ ["exit"] }
+  | ["ret"] =>
+    match s.armed with
+    | some sg =>
+      if s.life.running then (s.signalInStop (s.enterStop Extracted.atexitSeq wait) wait sg "extra" infoOn) else s
+    | none => { s with life := s.life.step P .exit, final := some "exit:0", classes := s.classes ++ ["return"] }
+  | ["exit"] =>
+    match s.armed with
+    | some sg =>
+      if s.life.running then (s.signalInStop (s.enterStop Extracted.atexitSeq wait) wait sg "extra" infoOn) else s
+    | none => { s with life := s.life.step P .exit, final := some "exit:0", classes := s.classes ++ ["exit"] }
   | ["texit", _] => { s with life := s.life.step P .exit, final := some "exit:0", classes := s.classes ++ ["exit-from-thread"] }
   | ["park"] => { s with parked := true }
   | ["sig", nm, _] => match Sig.ofName nm with
-    | some sg => s.signal P sg "main" logger reraise infoOn
+    | some sg =>
+      match s.conc with
+      | some c => if logger && reraise then s.signalInStop c wait sg "main" infoOn else s.signal P sg "main" logger reraise infoOn
+      | none => s.signal P sg "main" logger reraise infoOn
+    | none => s
+  | ["ksig", nm, spec] => match Sig.ofName nm with
+    -- process-directed: the masks set up by the harness leave one receiver (`m`, `t<k>`, `b`) or nobody (`none`: the
+    -- signal stays pending, the script goes on); `any`: the kernel chooses — Linux tries the main thread first
+    | some sg =>
+      if spec == "none" then { s with cont := s.cont + 1, classes := s.classes ++ ["kill-blocked-everywhere"] }
+      else
+        let who := if spec == "b" then "backend" else if spec == "m" || spec == "any" then "main" else "extra"
+        -- (`Sim.signal` builds the context from the life-cycle state; for a running handler cycle it is `Exit.Receiver.ctx`
+        --  of the receiver's class: the same calls for every frontend class, the backend branch on the backend thread)
+        let s1 := s.signal P sg who logger reraise infoOn
+        { s1 with classes := s1.classes ++ ["kill-" ++ spec.take 1] }
     | none => s
   | ["tsig", _, nm] => match Sig.ofName nm with
     | some sg =>
@@ -151,6 +211,7 @@ def runTrace (P : LParams) : IO UInt32 := do
     let reraise := parseBool (get kv "reraise")
     let infoOn := get kv "lvl" != "warning"
     let script := (get kv "script").splitOn ","
+    let wait := get kv "wait" != "0"
     -- two threads raising at once (`dsig`): which one enters first is the schedule's choice — one branch each
     let sims : List Sim := script.foldl (fun bs op =>
       match op.splitOn ":" with
@@ -158,7 +219,7 @@ def runTrace (P : LParams) : IO UInt32 := do
         match Sig.ofName nt, Sig.ofName nm with
         | some st, some sm => bs.flatMap fun b => [b.signal P sm "main" logger reraise infoOn, b.signal P st "extra" logger reraise infoOn]
         | _, _ => bs
-      | _ => bs.map fun b => Sim.op P logger reraise infoOn b op) [{}]
+      | _ => bs.map fun b => Sim.op P logger reraise infoOn b op wait) [{}]
     -- ran out of script without a terminal op = return from main
     let sims := sims.map fun sim => if sim.final.isNone && !sim.parked then { sim with life := sim.life.step P .exit } else sim
     t := { t with cases := t.cases + 1 }
